@@ -1,7 +1,7 @@
 (* Headline properties restated about the GENERATED code: ElGamal with proof (C14). *)
 From BV Require Import Alg.Field Alg.Dlog Sem.Base Model.Oracles Model.Helpers Model.Varint Model.Core
      Model.Protocols Model.Api Theory.CoreFacts Theory.Schemes Theory.ElGamal
-     Gen.Consts Gen.Funcs Refine.Prelude Refine.Tactics Refine.ElGamal Props.C14.
+     Gen.Consts Gen.Funcs Refine.Prelude Refine.Tactics Refine.ElGamal Refine.WEnc Props.C14.
 
 Section G.
   Context (K : FieldOps) (laws : FieldLaws K) (O : Oracles K) (C : Impl) (dbg : bool) (ent : nat -> bytes) (now : N).
@@ -55,6 +55,14 @@ Section G.
           (blinder : option (car K)) (seed : bytes) (k : nat) :
     dl pk = f0 K -> mfst (gen_BlsElGamal_seal_scalar E pk m gen blinder (seed, k)) = Val (Err InvalidInputs).
   Proof. intros H. rewrite r_eg_seal_scalar. apply (C14_identity_key_refused K laws O C dbg pk m gen blinder seed k H). Qed.
+  (* C14, homomorphism: the translated `+` of two ciphertexts decrypts, with the translated decrypt, to the sum of
+     the two plaintext points *)
+  Theorem generated_elgamal_homomorphic (a b : eg_ct) (sk : car K) :
+    exists c, gen_ElGamalCiphertext_add E a b = Val c
+              /\ gen_ElGamalCiphertext_decrypt E c sk = Val (padd (egct_decrypt a sk) (egct_decrypt b sk)).
+  Proof.
+    exists (egct_add a b). rewrite r_egct_add, r_egct_decrypt, (C14_homomorphic K laws a b sk). split; reflexivity.
+  Qed.
 End G.
 
 Print Assumptions generated_elgamal_decrypt_correct.
@@ -62,3 +70,4 @@ Print Assumptions generated_elgamal_verify_and_decrypt.
 Print Assumptions generated_elgamal_verify_exact.
 Print Assumptions generated_elgamal_uses_own_key.
 Print Assumptions generated_elgamal_identity_key_refused.
+Print Assumptions generated_elgamal_homomorphic.
